@@ -167,8 +167,8 @@ def abstract_world(world, o, ref):
         'layers': layers,
         'bases': {l: list(world['layers'][l].get('bases', ())) for l in layers},
         'life': {l: ('setUp' in eff[l] and 'tearDown' in eff[l]) for l in layers},
-        'per': {l: ('testSetUp' in eff[l] and 'testTearDown' in eff[l])
-                for l in layers},
+        'perUp': {l: 'testSetUp' in eff[l] for l in layers},
+        'perDown': {l: 'testTearDown' in eff[l] for l in layers},
         'tests': order,
         'decl': paths,
         'tmatch': {t: mv(o.get('t', ()), test_name(world, t)) for t in order},
@@ -181,10 +181,9 @@ def abstract_world(world, o, ref):
         'importFails': world.get('import', 'ok') != 'ok'
         and not (isinstance(world.get('import'), dict)
                  and world['import'].get('only_child')),
-        'spawnFails': bool(world.get('env', {}).get('spawn_fail')),
     }
     # TLC cannot index an empty JSON object; keep a dummy key
-    for k in ('bases', 'life', 'per', 'lmatch'):
+    for k in ('bases', 'life', 'perUp', 'perDown', 'lmatch'):
         if not w[k]:
             w[k] = {'_': [] if k in ('bases', 'lmatch') else False}
     for k in ('decl', 'tmatch', 'mmatch', 'ref', 'startCalled', 'decoSkip'):
@@ -195,16 +194,38 @@ def abstract_world(world, o, ref):
 
 EV_MAP = {'LsetUpBegin': 'SUB', 'LsetUpEnd': 'SUE', 'LtearDownBegin': 'TDB',
           'LtearDownEnd': 'TDE', 'LtestSetUp': 'TSU', 'LtestTearDown': 'TTD',
-          'T': 'T', 'ProcStart': 'PS', 'ProcExit': 'PX', 'Crash': 'CRASH'}
+          'T': 'T', 'ProcStart': 'PS', 'ProcExit': 'PX', 'Crash': 'CRASH',
+          'Spawn': 'SP', 'ReportCut': 'CUT', 'Write': 'LOOK'}
 
 
-def abstract_events(events):
-    """Group by process (parent first, children by first event time), keep
+def looks_like_header(tok):
+    """Environment fact about a line of text: would the parent's report
+    parser take it for the 'ran nfail nerr' header?"""
+    try:
+        a, b, c = map(int, tok.strip().split())
+    except ValueError:
+        return False
+    return True
+
+
+def abstract_events(events, life=None):
+    """life: {layer: has both setUp and tearDown}; the set-up / tear-down
+    events of a layer with only one of the two hooks are dropped (such a layer
+    is unobservable for the stack discipline, like a hook-less one).
+    Group by process (parent first, children by first event time), keep
     per-process order (seq), map to the uniform record TLC consumes."""
     by_pid = {}
     first = {}
     for e in events:
         if e['e'] not in EV_MAP:
+            continue
+        if life is not None and e['e'] in ('LsetUpBegin', 'LsetUpEnd',
+                                           'LtearDownBegin', 'LtearDownEnd') \
+                and not life.get(e['l'], True):
+            continue
+        if e['e'] == 'Write' and not (
+                e.get('via') == 'fd' and e.get('stream') == 'stderr'
+                and e.get('nl') and looks_like_header(e.get('tok', ''))):
             continue
         by_pid.setdefault(e['pid'], []).append(e)
         first.setdefault(e['pid'], e['ns'])
@@ -229,6 +250,9 @@ def abstract_events(events):
             elif k in ('SUE', 'TDE'):
                 rec['l'] = e['l']
                 rec['s'] = e['s']
+            elif k == 'SP':
+                rec['l'] = layer_abstract_name(e.get('l', ''))
+                rec['s'] = e.get('s', '')
             elif k == 'T':
                 rec['t'] = e['t']
                 rec['s'] = e['ph']
@@ -291,4 +315,5 @@ def abstract_report(res, cli=False, world=None):
         'failLayers': flay, 'errLayers': elay,
         'failOther': len(foth), 'errOther': len(eoth),
         'subprocErrs': len([x for x in eoth if x.startswith('subprocess')]),
+        'peers': [],
     }
